@@ -50,15 +50,21 @@ let () = serve (fun fn req ->
       let wits = SL.map (fun w -> SL.map jbytes (jlist w)) (jlist (jfield req "wits")) in
       of_bytes (serialize_segwit t (jn (jfield req "flag")) wits)
   | "cache" ->
-      (* ops: ["edit", tx] | ["add", tx] | ["reset"] | ["raw"] | ["id"]; returns what the reads returned *)
+      (* ops: ["edit", tx] | ["add", tx] | ["reset"] | ["raw"] | ["id"] | ["sans"]; returns what the reads returned *)
       let op_of j = match jlist j with
         | [JStr "edit"; t] -> OEdit (tx_of_json t)
         | [JStr "add"; t] -> OAdd (tx_of_json t)
         | [JStr "reset"] -> OReset
         | [JStr "raw"] -> OReadRaw
         | [JStr "id"] -> OReadId
+        | [JStr "sans"] -> OReadSans
         | _ -> raise (Model_error "bad cache op") in
-      of_list of_bytes (cache_run sha256 (tx_of_json (jfield req "tx")) (SL.map op_of (jlist (jfield req "ops"))))
+      let ops = SL.map op_of (jlist (jfield req "ops")) in
+      (* raw0 given: a parsed object (_raw = the bytes it was parsed from, seg = is_segwit_flag truthy) *)
+      (match jfield_opt req "raw0" with
+       | Some r -> of_list of_bytes (cache_run_parsed sha256 (tx_of_json (jfield req "tx")) (jbytes r)
+                                       (jbool (jfield req "seg")) ops)
+       | None -> of_list of_bytes (cache_run sha256 (tx_of_json (jfield req "tx")) ops))
   | "cs_encode" -> of_bytes (cs_encode (jn (jfield req "n")))
   | "read_cs" ->
       of_res (fun (v, r) -> JArr [of_on v; of_bytes r]) (read_cs (jbytes (jfield req "s")))
